@@ -400,6 +400,13 @@ func c08Wave10Calls() []*c08call {
 			return guard(func() string {
 				var d c08DeepA
 				m := deep.Parse(map[string]any{"s": leaf, "a_very_long_field_name_at_the_top": map[string]any{"another_quite_long_field_name": map[string]any{"the_innermost_field_of_the_document": leaf}}}, &d, opts...)
+				// the caller logs what it got, as a handler would: printing an issue is no business of any other call
+				for _, l := range m {
+					for _, i := range l {
+						_ = i.Error()
+						_ = fmt.Sprint(i)
+					}
+				}
 				all, _ := obs.CanonMap(m)
 				keys := make([]string, 0, len(m))
 				for k := range m {
